@@ -23,13 +23,17 @@ func gcfg(c asm.Config, mode94 g.SimulatorMode) g.SimulatorConfig {
 // compile calls the real assembler, converting a panic into a message.
 func compile(text string, cfg g.SimulatorConfig) (wd g.WarriorData, err error, panicMsg string) {
 	disturb(text, cfg)
-	_, panicMsg = try(func() { wd, err = g.CompileWarrior(strings.NewReader(text), cfg) })
+	rd, done := deliver(text)
+	defer done()
+	_, panicMsg = try(func() { wd, err = g.CompileWarrior(rd, cfg) })
 	return
 }
 
 func loadFile(text string, cfg g.SimulatorConfig) (wd g.WarriorData, err error, panicMsg string) {
 	disturb(text, cfg)
-	_, panicMsg = try(func() { wd, err = g.ParseLoadFile(strings.NewReader(text), cfg) })
+	rd, done := deliver(text)
+	defer done()
+	_, panicMsg = try(func() { wd, err = g.ParseLoadFile(rd, cfg) })
 	return
 }
 
